@@ -2,13 +2,14 @@
    Statements only; proofs in Proofs/JsonP.v.  Beside the writer's own spelling
    (Props/C02.v, the same reader) these are the other legal spellings the
    property names.
-   PARTIAL: exponent forms of numbers, fractions of other lengths than six
-   digits, Z-suffixed date-times and the grid-level clauses (rows missing / null /
-   omitting columns) are not proved; they are exercised by the independent writer
-   of the correspondence check.  "The caller's object is never modified" cannot be
-   stated about a functional model; it is checked on the implementation only. *)
+   The grid-level clauses (rows missing / null, whole objects) are C05_rows_null,
+   C05_rows_missing and C05_whole_object.
+   PARTIAL: what a date-time text denotes (iso8601 / pytz) is the oracle of the tie,
+   the model hands the matched text and zone name on; "the caller's object is never
+   modified" cannot be stated about a functional model and is checked on the
+   implementation only. *)
 From Coq Require Import String.
-From HS Require Import Base.Prelude Gen.JsonData Model.Value Model.Json Proofs.JsonP Proofs.JsonGridP Proofs.JsonReadP.
+From HS Require Import Base.Prelude Gen.JsonData Model.Value Model.Json Proofs.JsonP Proofs.JsonGridP Proofs.JsonReadP Proofs.JsonDateTimeP Proofs.JsonNumP Proofs.JsonTimeP.
 Open Scope N_scope.
 
 (* both Remove spellings, under either version *)
@@ -63,6 +64,48 @@ Theorem C05_rows_missing : forall f m, assoc (s_ "rows") m = None ->
   jparse_grid (S f) (m ++ cons (s_ "rows", JArr nil) nil) = jparse_grid (S f) m.
 Proof. exact rows_missing_is_empty. Qed.
 
+(* the prefixed text kinds: the whole remainder of the string is the payload *)
+Theorem C05_text_kinds : forall pre3 s,
+  jparse_str pre3 (115 :: 58 :: s) = Ok (VStr s) /\ jparse_str pre3 (117 :: 58 :: s) = Ok (VUri s) /\ jparse_str pre3 (98 :: 58 :: s) = Ok (VBin s).
+Proof. intros. split; [apply rt_str|split; [apply rt_uri|apply rt_bin]]. Qed.
+
+(* references with or without a display name *)
+Theorem C05_refs : forall pre3 n, n <> nil -> forallb is_ref_char n = true ->
+  jparse_str pre3 (114 :: 58 :: n) = Ok (VRef n None) /\
+  (forall d, jparse_str pre3 (114 :: 58 :: n ++ 32 :: d) = Ok (VRef n (Some d))).
+Proof. intros pre3 n H1 H2. split; [apply rt_ref_plain|intro d; apply rt_ref_dis]; assumption. Qed.
+
+(* dates; times with seconds and an optional six-digit fraction *)
+Theorem C05_date : forall pre3 y m d, valid_date y m d = true -> jparse_str pre3 (100 :: 58 :: iso_date y m d) = Ok (VDate y m d).
+Proof. exact rt_date. Qed.
+Theorem C05_time : forall pre3 h mi s us, h <= 23 -> mi <= 59 -> s <= 59 -> us < 1000000 ->
+  jparse_str pre3 (104 :: 58 :: iso_time h mi s us) = Ok (VTime h mi s us).
+Proof. exact rt_time. Qed.
+
+(* coordinates and (3.0) extended strings *)
+Theorem C05_coord : forall pre3 la lo, f6_shape la -> f6_shape lo -> jparse_str pre3 (99 :: 58 :: la ++ 44 :: lo) = Ok (VCoord la lo).
+Proof. exact rt_coord. Qed.
+Theorem C05_xstr : forall en tx, mem_colon en = false -> jparse_str false (120 :: 58 :: en ++ 58 :: tx) = Ok (VXStr en tx).
+Proof. exact rt_xstr. Qed.
+
+(* date-times: Z or a numeric offset, with or without a zone name, with or without a fraction of seconds of any length *)
+Theorem C05_datetime_spellings : forall pre3 y m d h mi s fr o zn,
+  y < 10000 -> m < 100 -> d < 100 -> h < 100 -> mi < 100 -> s < 100 -> frac_ok fr -> jo_ok o -> jzone_ok zn ->
+  jparse_str pre3 (116 :: 58 :: jdt_body y m d h mi s fr o ++ jzone_text zn) = Ok (VDateTimeRaw (jdt_body y m d h mi s fr o) zn).
+Proof. exact rt_datetime_spelled. Qed.
+
+(* numbers in any spelling: sign, digits, optional fraction of any length, optional exponent (e or E, optional sign),
+   optional unit after one blank *)
+Theorem C05_number_spellings : forall pre3 tok u, gnum_shape tok ->
+  jparse_str pre3 (110 :: 58 :: tok ++ match u with Some x => 32 :: x | None => nil end) = Ok (VNum NkFin tok tok u).
+Proof. exact rt_num_spelled. Qed.
+
+(* times with a fraction of seconds of any length: the first six digits count, as microseconds *)
+Theorem C05_time_fraction : forall pre3 h mi s fr,
+  h <= 23 -> mi <= 59 -> s <= 59 -> fr <> nil -> forallb ascii_digit fr = true ->
+  jparse_str pre3 (104 :: 58 :: d2 h ++ 58 :: d2 mi ++ 58 :: d2 s ++ 46 :: fr) = Ok (VTime h mi s (usec_of fr)).
+Proof. exact rt_time_frac. Qed.
+
 (* WHOLE OBJECTS: a grid object {meta, cols, rows} - meta with a string "ver" member anywhere among its members, column
    objects with a string "name" member anywhere, row objects with ANY members (a row may leave columns out), rows possibly
    missing or null - parses to the grid it denotes: the version, the metadata tags in order with the values their members
@@ -77,3 +120,12 @@ Theorem C05_whole_object : forall g ver p3 meta_j meta cs cols rows_j rows,
   = Ok (VGrid ver (dict_of meta) (dict_of cols) rows).
 Proof. exact json_object_denotes. Qed.
 Print Assumptions C05_whole_object.
+Print Assumptions C05_text_kinds.
+Print Assumptions C05_refs.
+Print Assumptions C05_date.
+Print Assumptions C05_time.
+Print Assumptions C05_coord.
+Print Assumptions C05_xstr.
+Print Assumptions C05_datetime_spellings.
+Print Assumptions C05_number_spellings.
+Print Assumptions C05_time_fraction.
